@@ -31,7 +31,7 @@ def lattice_points(ctx):
             fh.write("SPECIFICATION Spec\nCONSTANTS\n" f"  N = {n}\n  Vals = {{{', '.join(map(str, vals))}}}\n"
                      f"  Fns = {{{', '.join(chr(34) + f + chr(34) for f in fns)}}}\n  Neg = {'TRUE' if neg else 'FALSE'}\n"
                      "INVARIANT StencilsAgree\n")
-        res = run_tlc(ctx, f"design:Bench n={n}", "Bench", str(p), workers="auto", timeout=1200)
+        res = run_tlc(ctx, f"design:Bench n={n}", "Bench", str(p), workers="auto", timeout=5400)
         if not res["ok"]:
             raise Machinery("design run Bench failed:\n" + "\n".join(l for l in res["out"].splitlines() if not l.startswith('"{'))[-2000:])
         recs = [json.loads(json.loads(l)) for l in res["out"].splitlines() if l.startswith('"{')]
